@@ -1,12 +1,12 @@
 /* C06: "doAdd / doRemove / change* keep both matrix copies mirrored" - real bodies of SPxLPBase<R>::doRemoveRow(int),
  * doRemoveCol(int), changeElement(int,int,const R&,bool), doRemoveRows(int[]), doRemoveCols(int[]) (src/soplex/spxlpbase.h), R = int
- * (values are only copied and compared with zero).
+ * (values are only copied and compared with zero / epsilon).
  *
- * Storage model: each matrix copy ("file") is a flat array of Nonzero<int> cells; vector v owns the MATW cells
+ * Storage model: each matrix copy ("file") is a flat array of Nonzero cells {val, idx}; vector v owns the MATW cells
  * [v*MATW, v*MATW+MATW) and size[v] of them are in use, so two vectors of a file never overlap (by construction).
- * The sparse-vector operations the bodies use - pos, remove(n), add(n, idx[], val[]), index, value - are the REAL texts of
- * svectorbase.h (sliced), their loops completely unwound over the MATW <= 3 cells; only size()/set_size()/max() are stubs
- * (the size lives in the flat file instead of in the SVector object).
+ * The sparse-vector operations the bodies use - pos, remove(n), add(i, v), index, value - are the REAL texts of svectorbase.h
+ * (sliced); pos() sits in a zero-argument host so that its loop carries an inductive loop contract.  Only size()/set_size()/max()
+ * are stubs (the size lives in the flat file instead of in the SVector object) and `m_elem` is the address of the vector's first cell.
  * LPRowSetBase / LPColSetBase: the two-base layout of README point 16 (identical layout {LPShared* d}, methods through d only). */
 #include "verif.h"
 typedef int R;
@@ -16,46 +16,61 @@ typedef int R;
 #ifndef CAP
 #define CAP 4
 #endif
+#if MATW != 3 || (CAP != 3 && CAP != 4)
+#error "the straight-line copy code below is written out for MATW == 3, CAP == 3 or 4"
+#endif
+#if CAP > 3
+#define IF_CAP4(x) x
+#else
+#define IF_CAP4(x)
+#endif
 
 extern "C" {
+/* Nonzero<int>: a plain C struct so that the C contract / loop invariants and the C++ bodies work on ONE type (no byte-level casts) */
+struct nzc { int val; int idx; };
 extern int g_rm_calls, g_rm_arg, g_rm_set, g_add_r, g_add_c, g_eps, g_sv, g_newnum;
 extern const int* gp_cnt;
-/* alias pointers for loop invariants (README point 6): own/cross file of the operation */
-extern int *gp_om, *gp_os, *gp_cm, *gp_cs, *gp_perm;
-extern int g_pos_i, g_pos_n; extern int* gp_pe;
+/* alias pointers for loop invariants (README point 6): cells and sizes of the own / cross file of the operation */
+extern struct nzc *gp_om, *gp_cm, *gp_pe; extern int *gp_os, *gp_cs, *gp_perm;
+extern int g_pos_i, g_pos_n, g_n0;
 }
-/* SVSet type invariant "size <= max" of the vector a view is created for.  Only the instances whose loops carry loop
- * contracts define it as an assumption (the havocked cross vectors other than the ghost one need it); that it is preserved is
- * what those instances prove at the ghost vector (SIZEOK in every invariant and postcondition). */
+/* SVSet type invariant "0 <= size <= max" of the vector a view is handed out for.  Only instances whose loops carry loop contracts
+ * define it as an assumption (the havocked cross vectors other than the ghost one need it); that it is preserved is what those
+ * instances prove at the arbitrary ghost vector (SIZEOK in every invariant and postcondition). */
 #ifdef ASSUME_VIEW_SIZE
 #define VIEW_SIZE_INVARIANT(n) __CPROVER_assume(0 <= (n) && (n) <= MATW)
 #else
 #define VIEW_SIZE_INVARIANT(n)
 #endif
 
-template <class RR> class Nonzero
-{
-public:
-   RR val;
-   int idx;
-};
+/* LP type invariant "stored indices < dimension" on READ of an index, only for the doRemoveRows/doRemoveCols instances (outer loop
+ * under contract: the cells of the cross vectors other than the ghost one are havocked).  Every cell is read before it is rewritten
+ * there, so the assumption only ever constrains not-yet-processed cells, for which the invariant states it at the ghost vector. */
+#ifdef ASSUME_INDEX_RANGE
+#define INDEX_READ_INVARIANT(v) __CPROVER_assume(0 <= (v) && (v) < g_n0)
+#else
+#define INDEX_READ_INVARIANT(v)
+#endif
 
 template <class T> struct SVectorBase
 {
-   Nonzero<T>* m_elem;
-   int* usedp;      /* stub: memused lives in the flat file */
+   /* stub data: the file's cell array and size array (the same two base pointers in every vector of a file) and the vector's number */
+   nzc* elem0; int* size0; int vno;
    int memsize;
-   int size() const { return *usedp; }
+#define m_elem (elem0 + vno * MATW)
+   int size() const { return size0[vno]; }
    int max() const { return memsize; }
-   void set_size(int s) { *usedp = s; }
+   void set_size(int s) { size0[vno] = s; }
    int index(int n) const
    {
       __CPROVER_assert(0 <= n && n < size(), "SVector position in bounds");
+      INDEX_READ_INVARIANT(m_elem[n].idx);
 #include "SV_index.inc"
    }
    int& index(int n)
    {
       __CPROVER_assert(0 <= n && n < size(), "SVector position in bounds");
+      INDEX_READ_INVARIANT(m_elem[n].idx);
 #include "SV_index_w.inc"
    }
    const T& value(int n) const
@@ -70,7 +85,7 @@ template <class T> struct SVectorBase
    }
    /* pos(i): the real body, hosted in a zero-argument member so that its loop can carry a loop contract (README point 1);
       the argument and the vector's cells/size are exported as ghosts for that invariant */
-   int pos(int i) const { g_pos_i = i; g_pos_n = size(); gp_pe = (int*)m_elem; return pos0(); }
+   int pos(int i) const { g_pos_i = i; g_pos_n = size(); gp_pe = m_elem; return pos0(); }
    int pos0() const
    {
       const int i = g_pos_i;
@@ -81,29 +96,26 @@ template <class T> struct SVectorBase
       __CPROVER_assert(0 <= n && n < size(), "SVector::remove position in bounds");
 #include "SV_remove1.inc"
    }
-   void add(int n, const int i[], const T v[])
+   void add(int i, const T& v)
    {
-      __CPROVER_assert(n + size() <= max(), "SVector::add within max()");
-#include "SV_addn.inc"
+      __CPROVER_assert(size() < max(), "SVector::add within max()");
+#include "SV_add1.inc"
    }
 };
 
 struct LPShared
 {
-   int* rmem; int* rsize; int* nr;      /* row file, number of rows */
-   int* cmem; int* csize; int* nc;      /* column file, number of columns */
-   SVectorBase<R>* rpool; SVectorBase<R>* cpool;   /* the SVector objects (one per vector number), filled on demand */
+   nzc* rmem; int* rsize; int* nr;      /* row file, number of rows */
+   nzc* cmem; int* csize; int* nc;      /* column file, number of columns */
+   SVectorBase<R>* rpool; SVectorBase<R>* cpool;   /* the SVector objects, one per vector number (as in the real SVSet) */
 };
 
-/* The SVector objects of a file (one per vector number, as in the real SVSet) are set up by the wrapper before the body runs:
- * object i points at the cells [i*MATW, i*MATW+MATW) and at size[i]; view() hands out object i (bounds assertion added). */
-static inline void init_views(SVectorBase<R>* pool, int* mem, int* size)
+/* The SVector objects of a file are set up by the wrapper before the body runs: object i stands for the cells
+ * [i*MATW, i*MATW+MATW) and size[i]; view() hands out object i (bounds assertion added). */
+static inline void init_views(SVectorBase<R>* pool, nzc* mem, int* size)
 {
-#define INIT_VIEW(i) pool[i].m_elem = (Nonzero<R>*)mem + (i) * MATW; pool[i].usedp = size + (i); pool[i].memsize = MATW;
-   INIT_VIEW(0) INIT_VIEW(1) INIT_VIEW(2) INIT_VIEW(3)
-#if CAP != 4
-#error "init_views is written out for CAP == 4"
-#endif
+#define INIT_VIEW(i) pool[i].elem0 = mem; pool[i].size0 = size; pool[i].vno = (i); pool[i].memsize = MATW;
+   INIT_VIEW(0) INIT_VIEW(1) INIT_VIEW(2) IF_CAP4(INIT_VIEW(3))
 }
 static inline SVectorBase<R>& view(SVectorBase<R>* pool, int* size, int num, int i)
 {
@@ -113,15 +125,13 @@ static inline SVectorBase<R>& view(SVectorBase<R>* pool, int* size, int num, int
 }
 
 /* SVSetBase::remove(int n) + DataSet::remove(int): vector number n becomes the vector that had the last number (C19, unit dataset) */
-static inline void remove_vec(int* mem, int* size, int* num, int n)
+static inline void remove_vec(nzc* mem, int* size, int* num, int n)
 {
    __CPROVER_assert(0 <= n && n < *num, "remove(n): vector number in bounds");
    int last = *num - 1;
    if(n != last)
    {
-      mem[2 * (n * MATW + 0)] = mem[2 * (last * MATW + 0)]; mem[2 * (n * MATW + 0) + 1] = mem[2 * (last * MATW + 0) + 1];
-      mem[2 * (n * MATW + 1)] = mem[2 * (last * MATW + 1)]; mem[2 * (n * MATW + 1) + 1] = mem[2 * (last * MATW + 1) + 1];
-      mem[2 * (n * MATW + 2)] = mem[2 * (last * MATW + 2)]; mem[2 * (n * MATW + 2) + 1] = mem[2 * (last * MATW + 2) + 1];
+      mem[n * MATW + 0] = mem[last * MATW + 0]; mem[n * MATW + 1] = mem[last * MATW + 1]; mem[n * MATW + 2] = mem[last * MATW + 2];
       size[n] = size[last];
    }
    *num = last;
@@ -133,12 +143,18 @@ static inline void remove_vec(int* mem, int* size, int* num, int n)
 static inline void remove_perm(int* num, int perm[])
 {
 #define STEP_PERM(m) if((m) < *num && perm[m] >= 0) perm[m] = gp_cnt[m];
-   STEP_PERM(0) STEP_PERM(1) STEP_PERM(2) STEP_PERM(3)
-#if CAP > 4
-#error "remove_perm is written out for CAP <= 4"
-#endif
+   STEP_PERM(0) STEP_PERM(1) STEP_PERM(2) IF_CAP4(STEP_PERM(3))
    *num = gp_cnt[*num];
    g_newnum = *num;
+}
+
+/* real add2: SVSetBase<R>::add2(vector_w(i), n, idx, val) = xtend(svec, size+n) [model: fixed capacity MATW, room asserted by add]
+ * + svec.add(n, idx, val), which for n == 1 is add(idx[0], val[0]) (real body of add(int, const R&); the n-ary add runs the same
+ * three statements per nonzero - conformance-checked) */
+static inline void add2_one(SVectorBase<R>& v, int n, const int idx[], const R val[])
+{
+   __CPROVER_assert(n == 1, "add2 model: one nonzero at a time");
+   v.add(idx[0], val[0]);
 }
 
 template <class T> struct LPRowSetBase
@@ -149,8 +165,7 @@ template <class T> struct LPRowSetBase
    const SVectorBase<T>& rowVector(int i) const { return view(d->rpool, d->rsize, *d->nr, i); }
    void remove(int j) { g_rm_calls++; g_rm_arg = j; g_rm_set = 0; remove_vec(d->rmem, d->rsize, d->nr, j); }
    void remove(int perm[]) { g_rm_calls++; g_rm_set = 0; remove_perm(d->nr, perm); }
-   /* real: SVSetBase<R>::add2(rowVector_w(i), n, idx, val) = xtend(svec, size+n) [model: fixed capacity, asserted by add] + svec.add(n, idx, val) */
-   void add2(int i, int n, const int idx[], const T val[]) { g_add_r++; view(d->rpool, d->rsize, *d->nr, i).add(n, idx, val); }
+   void add2(int i, int n, const int idx[], const T val[]) { g_add_r++; add2_one(view(d->rpool, d->rsize, *d->nr, i), n, idx, val); }
 };
 template <class T> struct LPColSetBase
 {
@@ -160,7 +175,7 @@ template <class T> struct LPColSetBase
    const SVectorBase<T>& colVector(int i) const { return view(d->cpool, d->csize, *d->nc, i); }
    void remove(int j) { g_rm_calls++; g_rm_arg = j; g_rm_set = 1; remove_vec(d->cmem, d->csize, d->nc, j); }
    void remove(int perm[]) { g_rm_calls++; g_rm_set = 1; remove_perm(d->nc, perm); }
-   void add2(int i, int n, const int idx[], const T val[]) { g_add_c++; view(d->cpool, d->csize, *d->nc, i).add(n, idx, val); }
+   void add2(int i, int n, const int idx[], const T val[]) { g_add_c++; add2_one(view(d->cpool, d->csize, *d->nc, i), n, idx, val); }
 };
 
 static inline R spxAbs(R a) { return a < 0 ? -a : a; }
@@ -205,8 +220,15 @@ struct H : LP
    }
 };
 
+/* copy a file between the contract's parallel arrays and the cell array (straight-line, CAP*MATW cells) */
+#define CELL_IN(k) cells[k].idx = fi[k]; cells[k].val = fv[k];
+#define CELL_OUT(k) fi[k] = cells[k].idx; fv[k] = cells[k].val;
+#define ALL12(S) S(0) S(1) S(2) S(3) S(4) S(5) S(6) S(7) S(8) IF_CAP4(S(9) S(10) S(11))
+static inline void file_in(nzc* cells, const int* fi, const int* fv) { ALL12(CELL_IN) }
+static inline void file_out(const nzc* cells, int* fi, int* fv) { ALL12(CELL_OUT) }
+
 static inline void setup(H& h, Scaler& sc, SVectorBase<R>* rpool, SVectorBase<R>* cpool,
-                         int* rmem, int* rsize, int* nr, int* cmem, int* csize, int* nc)
+                         nzc* rmem, int* rsize, int* nr, nzc* cmem, int* csize, int* nc)
 {
    h.bind(); h._isScaled = nondet_bool(); h.lp_scaler = &sc;
    h.sh.rmem = rmem; h.sh.rsize = rsize; h.sh.nr = nr; h.sh.cmem = cmem; h.sh.csize = csize; h.sh.nc = nc;
@@ -217,41 +239,49 @@ static inline void setup(H& h, Scaler& sc, SVectorBase<R>* rpool, SVectorBase<R>
 
 #if defined(INST_RM)
 /* own = the file of the vector being removed (rows for doRemoveRow, columns for doRemoveCol), cross = the other file */
-extern "C" void w_rm(int* om, int* os, int* cm, int* cs, int* nown, int* ncross, int j)
+extern "C" void w_rm(int* om_i, int* om_v, int* os, int* cm_i, int* cm_v, int* cs, int* nown, int* ncross, int j)
 {
    VIN("nown", *nown); VIN("ncross", *ncross); VIN("j", j);
-   H h; Scaler sc; SVectorBase<R> rpool[CAP], cpool[CAP];
+   H h; Scaler sc; SVectorBase<R> rpool[CAP], cpool[CAP]; nzc ocells[CAP * MATW], ccells[CAP * MATW];
+   file_in(ocells, om_i, om_v); file_in(ccells, cm_i, cm_v);
 #ifdef REMROW
-   setup(h, sc, rpool, cpool, om, os, nown, cm, cs, ncross);
+   setup(h, sc, rpool, cpool, ocells, os, nown, ccells, cs, ncross);
 #else
-   setup(h, sc, rpool, cpool, cm, cs, ncross, om, os, nown);
+   setup(h, sc, rpool, cpool, ccells, cs, ncross, ocells, os, nown);
 #endif
    h.j_ = j;
-   gp_om = om; gp_os = os; gp_cm = cm; gp_cs = cs;
+   gp_om = ocells; gp_os = os; gp_cm = ccells; gp_cs = cs;
    h.body();
+   file_out(ocells, om_i, om_v); file_out(ccells, cm_i, cm_v);
 }
 #elif defined(INST_CE)
-extern "C" void w_ce(int* rmem, int* rsize, int* cmem, int* csize, int* nr, int* nc, int i, int j, int val, bool scale)
+extern "C" void w_ce(int* rm_i, int* rm_v, int* rs, int* cm_i, int* cm_v, int* cs, int* nr, int* nc, int i, int j, int val, bool scale)
 {
    VIN("nr", *nr); VIN("nc", *nc); VIN("i", i); VIN("j", j); VIN("val", val); VIN("eps", g_eps); VIN("scale", scale);
-   H h; Scaler sc; SVectorBase<R> rpool[CAP], cpool[CAP];
-   setup(h, sc, rpool, cpool, rmem, rsize, nr, cmem, csize, nc);
+   H h; Scaler sc; SVectorBase<R> rpool[CAP], cpool[CAP]; nzc rcells[CAP * MATW], ccells[CAP * MATW];
+   file_in(rcells, rm_i, rm_v); file_in(ccells, cm_i, cm_v);
+   setup(h, sc, rpool, cpool, rcells, rs, nr, ccells, cs, nc);
    h.i_ = i; h.j_ = j; h.val_ = val; h.scale_ = scale;
+   gp_om = rcells; gp_os = rs; gp_cm = ccells; gp_cs = cs;
    h.body();
+   file_out(rcells, rm_i, rm_v); file_out(ccells, cm_i, cm_v);
 }
 #elif defined(INST_PERM)
-/* own = the set whose vectors are removed by perm; only its number and perm are touched by the model; cross = the file the body rewrites */
-extern "C" void w_perm(int* cm, int* cs, int* nown, int* ncross, int* perm, const int* cnt)
+/* own = the set whose vectors are removed by perm (only its number and perm are touched by the model); cross = the file the body rewrites */
+extern "C" void w_perm(int* cm_i, int* cm_v, int* cs, int* nown, int* ncross, int* perm, const int* cnt)
 {
    VIN("nown", *nown); VIN("ncross", *ncross); VIN_ARR8("perm", perm, *nown);
-   H h; Scaler sc; SVectorBase<R> rpool[CAP], cpool[CAP];
-   gp_cnt = cnt;
+   H h; Scaler sc; SVectorBase<R> rpool[CAP], cpool[CAP]; nzc ccells[CAP * MATW];
+   file_in(ccells, cm_i, cm_v);
+   gp_cnt = cnt; gp_perm = perm;
 #ifdef REMROW
-   setup(h, sc, rpool, cpool, 0, 0, nown, cm, cs, ncross);
+   setup(h, sc, rpool, cpool, 0, 0, nown, ccells, cs, ncross);
 #else
-   setup(h, sc, rpool, cpool, cm, cs, ncross, 0, 0, nown);
+   setup(h, sc, rpool, cpool, ccells, cs, ncross, 0, 0, nown);
 #endif
    h.perm_ = perm;
+   gp_cm = ccells; gp_cs = cs;
    h.body();
+   file_out(ccells, cm_i, cm_v);
 }
 #endif
